@@ -157,6 +157,33 @@ func driveConcVar(t *Tracer, r Rng, n int) {
 	for g := range seeds {
 		seeds[g] = r.Int63()
 	}
+	// herd rounds first (the process is still cold): ALL goroutines issue the SAME fresh call at the same moment - many
+	// clients asking for the same thing right after start-up - so that several of them are inside one first-time
+	// computation of one key together
+	herd := rounds / 4
+	for h := 0; h < herd; h++ {
+		c := varCall{r.Intn(varKinds), r.Int63()}
+		if h%3 == 0 {
+			c.Kind = 6 // the expensive ones more often: their first computation takes longest
+		}
+		res := make([][]string, G)
+		var hw sync.WaitGroup
+		gate := make(chan struct{})
+		for g := 0; g < G; g++ {
+			hw.Add(1)
+			go func(g int) {
+				defer hw.Done()
+				<-gate
+				res[g] = runVar(c.Kind, c.Seed)
+			}(g)
+		}
+		close(gate)
+		hw.Wait()
+		for g := 0; g < G; g++ {
+			calls[g] = append(calls[g], c)
+			got[g] = append(got[g], res[g])
+		}
+	}
 	var wg sync.WaitGroup
 	start := make(chan struct{})
 	for g := 0; g < G; g++ {
